@@ -42,14 +42,18 @@ class Unit:
             problems.append(dict(unit=self.name, function='*', kind='unit-build', detail=f'{type(e).__name__}: {e}', trace=traceback.format_exc()[-1500:]))
             return obs, funcs, problems
         seen = {}
-        def emit(fn, o, text):
+        def emit(fn, o, text, focus_text=None):
             base = re.sub(r'@\d+', '', o.name)
             base = f'{self.name}:{base}'
             seen[base] = seen.get(base, 0) + 1
             name = base if seen[base] == 1 else f'{base}~{seen[base]}'
             path = os.path.join(outdir, f'{len(obs):05d}.smt2')
             open(path, 'w').write(text)
-            obs.append(dict(name=name, kind=o.kind, path=path, hash=hashlib.sha256(text.encode()).hexdigest()[:16], unit=self.name, function=fn, raw=o.name))
+            fpath = None
+            if focus_text is not None:
+                fpath = os.path.join(outdir, f'{len(obs):05d}.focus.smt2'); open(fpath, 'w').write(focus_text)
+                open(fpath.replace('.focus.', '.nohint.'), 'w').write(E.obligation_smt2(ex, o, focus='nohint'))
+            obs.append(dict(name=name, kind=o.kind, path=path, focus_path=fpath, hash=hashlib.sha256(text.encode()).hexdigest()[:16], unit=self.name, function=fn, raw=o.name))
         lemma_ok = True
         for lname in self.lemmas:
             try:
@@ -67,7 +71,7 @@ class Unit:
                     problems.append(dict(unit=self.name, function=q, kind='spec-binding', detail='function not found in source')); continue
                 seg = ast.unparse(fdef)
                 q2, obl = E.generate(ex, owner, fname, kind)
-                for o in obl: emit(q, o, E.obligation_smt2(ex, o))
+                for o in obl: emit(q, o, E.obligation_smt2(ex, o), E.obligation_smt2(ex, o, focus=True) if o.focus is not None else None)
                 funcs.append(dict(unit=self.name, function=q, file=getattr(fdef, '_file', ''), lineno=fdef.lineno, src_sha=hashlib.sha256(seg.encode()).hexdigest()[:16],
                                   obligations=len(obl), gen_s=round(time.time() - t0, 2), has_contract=q in spec.contracts))
             except E.Unsupported as e:
